@@ -6,7 +6,8 @@ from vlib.harness import Violation
 PID = "C27"
 RULE = ("exhaustive identifiers proto.<P>.<cat>.<name>, proto.<P>.<cat>.<sub>.<name>, <cat>.<name>, <name> with "
         "cat/sub/name over every registered handler key, its dot-components and fresh tokens, 3 protocol strings, "
-        "as the last element of error lists of length 1..3 (earlier elements are decoys that map elsewhere); oracle: "
+        "as the last element of error lists of length 1..3 (earlier elements are decoys that map elsewhere, or repeat the last id), through "
+        "RpcError.from_errors, the same method reached through a registered subclass, and RpcError.from_response; oracle: "
         "reference lookup (full id, id without proto.<P>., final component, category, generic) over the registry "
         "read from RpcError.__handlers__, which must itself equal the error ids declared by the error classes (read from the source "
         "with ast); where the statement leaves 'category' open (4-part suffixes) every reading "
@@ -85,15 +86,24 @@ def oracle(case):
         return check_registry(case)
     RpcError, handlers = registry()
     errors = case["errors"]
+    route = case.get("route", "from_errors")
     try:
-        exc = RpcError.from_errors(errors)
+        if route == "from_response":     # the way node answers reach the mapping: a 500 response with a JSON error list
+            import json
+            from vlib import fake_http
+            exc = RpcError.from_response(fake_http.make_response(500, json.dumps(errors).encode(), "application/json"))
+        elif route.startswith("subclass:"):   # the class methods are inherited: asking through a registered class changes nothing
+            sub = next(c for c in handlers.values() if c.__name__ == route.split(":")[1])
+            exc = sub.from_errors(errors)
+        else:
+            exc = RpcError.from_errors(errors)
     except Exception as e:
-        raise Violation("from_errors raised %r for %s" % (e, errors), case, "raise")
+        raise Violation("%s raised %r for %s" % (route, e, errors), case, "raise")
     eid = errors[-1]["id"]
     ok, matched = acceptable(eid, handlers, RpcError)
     if type(exc) not in ok:
-        raise Violation("id %r (last of %d errors) mapped to %s, expected %s"
-                        % (eid, len(errors), type(exc).__name__, sorted(c.__name__ for c in ok)), case,
+        raise Violation("id %r (last of %d errors, route %s, ids %s) mapped to %s, expected %s"
+                        % (eid, len(errors), route, [e["id"] for e in errors], type(exc).__name__, sorted(c.__name__ for c in ok)), case,
                         "wrong-class:%s" % type(exc).__name__)
     if exc.args != (errors[-1],):
         raise Violation("exception does not carry the last error: %r" % (exc.args,), case, "wrong-payload")
@@ -138,6 +148,11 @@ def run(h):
         items.append({"errors": [last]})
         items.append({"errors": [decoys[i % 3], last]})
         items.append({"errors": [decoys[(i + 1) % 3], decoys[i % 3], last]})
+        # the innermost error's id also occurs earlier in the trace; other routes to the same mapping
+        names = sorted({c.__name__ for c in handlers.values()})
+        route = ["from_response", "subclass:" + names[i % len(names)], "from_errors", "from_response"][i % 4]
+        items.append({"errors": [dict(last, extra="earlier"), decoys[i % 3], last], "route": route})
+        items.append({"errors": [decoys[i % 3], last], "route": ["from_response", "subclass:" + names[(i + 1) % len(names)]][i % 2]})
     h.run_enum([{"mode": "registry"}], lambda c, st_: (oracle(c), st_.case(c, True, "registry"))[1], shards=1)
     h.exhaustive = True
     h.coverage_extra["exhaustive_subdomain"] = "%d identifiers x list lengths 1..3" % len(ids)
